@@ -27,6 +27,7 @@ func vpTotal(b []byte, tag byte, err error) {
 
 // arbitrary bytes into RawMessage (also the unknown-field skipping path: rawRead).
 func VP_C03_rawmsg() {
+	vp.NoSpin(300) // bounded input: no loop of the decoder legitimately runs 300 times
 	n := vp.Choice(vpC03N() + 1)
 	b := vp.Bytes(n)
 	tag := vp.Byte()
@@ -44,6 +45,7 @@ func VP_C03_rawmsg() {
 
 // arbitrary bytes through StringifiedMessage.UnmarshalNBT (binary -> text).
 func VP_C03_snbt_encode() {
+	vp.NoSpin(300) // bounded input: no loop of the decoder legitimately runs 300 times
 	n := vp.Choice(vpC03N() + 1)
 	b := vp.Bytes(n)
 	tag := vp.Byte()
@@ -56,6 +58,7 @@ func VP_C03_snbt_encode() {
 
 // RawMessage.String on arbitrary content never panics.
 func VP_C03_rawmsg_string() {
+	vp.NoSpin(300) // bounded input: no loop of the decoder legitimately runs 300 times
 	n := vp.Choice(vpC03N() + 1)
 	m := RawMessage{Type: vp.Byte(), Data: vp.Bytes(n)}
 	vp.SizeBound(n + 1)
